@@ -98,10 +98,10 @@ def run(ctx):
                 "withdraw_one_of_many", "withdraw_unknown", "answers", "refused_interface", "refcnt>=2",
                 "gratuitous_refused", "gratuitous_sent", "arp_replies"]
         zero = [k for k in need if st.get(k, 0) == 0]
-        if zero and not ctx.violations:
-            raise Exception("generator degenerate, zero counters: %r (all: %r)" % (zero, st))
+        if zero and not ctx.violations and not ctx.replay_in:
+            raise vlib.Broken("generator degenerate, zero counters: %r (all: %r)" % (zero, st))
     if conc and st.get("conc_requests_overlapping_an_update", 0) == 0 and not ctx.violations:
-        raise Exception("concurrent harness degenerate: no request overlapped an update: %r" % st)
+        raise vlib.Broken("concurrent harness degenerate: no request overlapped an update: %r" % st)
 
     def search():
         for k in range(4):
@@ -123,7 +123,7 @@ def run(ctx):
         "the ARP responder is driven over an in-process net.PacketConn through mdlayher/arp's real parser; NDP responders (when an ICMPv6 socket "
         "on a link-local interface is available: %s) are driven for Watch/Unwatch only, ndpResponder.processRequest is not driven" % ndp,
         "C13_rw_atomic assumes every announcer method is one critical section of Announce.RWMutex; decided on every run on lock facts regenerated from announcer.go "
-        "(announcer_methods_are_critical_sections, tools/lockfacts, syntactic); that a Go RWMutex gives atomicity is the interleaving semantics of Model/Lock.v (C20); "
+        "(announcer_methods_are_critical_sections, tools/lockfacts, syntactic); that sections of one RWMutex are atomic for readers (answers come from a prefix of the complete writer sections) is C20_rw_sections_atomic (Model/Lock.v semantics); "
         "the -race run of the thorough tier samples schedules",
     ]
     ctx.assumptions += ["JoinGroup/LeaveGroup succeed; the set of responders is fixed during a history; NoDup of the NDP responder list (Go map keys)"]
